@@ -22,7 +22,10 @@ VARIABLES l, nf, aux, fl
 tvars == <<kind, n, l2v, hs, gcN, roN, l, nf, aux, fl>>
 
 Act(p) == ("ACT_" \o p) \in DOMAIN IOEnv
-O(p, name, ok) == IF Act(p) THEN <<p, name, ok>> ELSE <<p, name, TRUE>>
+(* ALIAS_<p> = <q> in the environment hands the obligations of property p over to q
+   (C20 re-runs the drivers of other properties under other build configurations) *)
+Alias(p) == IF ("ALIAS_" \o p) \in DOMAIN IOEnv THEN IOEnv["ALIAS_" \o p] ELSE p
+O(p, name, ok) == IF Act(Alias(p)) THEN <<Alias(p), name, ok>> ELSE <<Alias(p), name, TRUE>>
 Has(r, f) == f \in DOMAIN r
 
 Ev(e) == l <= Len(Rec) /\ nf < MaxFail /\ Rec[l].ev = e
@@ -485,6 +488,9 @@ ObsObs(r) ==
   IN << O("C01", "obs.slots", known),
         O("C01", "obs.edge", known => \A i \in I : EdgeOf(H[i][1]) = <<H[i][2], H[i][3]>>),
         O("C02", "obs.eval", known => \A i \in I : SeqToSet(H[i][4]) = V[i]),
+        \* eval with argument lists that name every variable twice (first the opposite value):
+        \* the last value counts (documented)
+        O("C02", "obs.eval.dup", known => \A i \in I : Len(H[i]) >= 10 => SeqToSet(H[i][10]) = V[i]),
         O("C01", "obs.eqhash", known => \A i, j \in I : (H[i][6] = H[j][6]) <=> (V[i] = V[j])),
         O("C01", "obs.ord", known => \A i, j \in I : (H[i][7] = H[j][7]) <=> (V[i] = V[j])),
         O("C01", "obs.eq", known => \A i, j \in firstN : i < j =>
